@@ -24,6 +24,12 @@ CLAIMED = {
                   "every world operation, builder/batch operation and command-buffer replay incl. panicking replays; "
                   "differential check of per-operation drop lists (every component logs its drop; clones get fresh serials) "
                   "+ implementation-only drop ledger (double drop / leak / drop-after-return)"),
+ "C04": ("world+layout", "Coq proofs of the layout arithmetic the unsafe code relies on, for every layout and count: capacity never "
+                  "below length through allocate/reserve/batch growth, dangling bases aligned because types are sorted by "
+                  "descending alignment, slots aligned / in bounds / disjoint, bump-arena placements aligned / in bounds / "
+                  "non-overlapping, every location of a reachable world names an existing row; differential check of a "
+                  "capacity shadow at capacity boundaries + run-time address, alignment and tracking-allocator oracles "
+                  "(memory safety itself is a run-time fact: partial)"),
  "C05": ("guards", "Coq proofs over a sequential per-column cell model: grants keep writer-excludes-all, a query is granted iff "
                    "compatible (exactness), conflicts iff common column of a non-empty archetype satisfying both with a unique "
                    "access, drops restore every cell; the unconditional release statement is refuted for failed acquisitions "
@@ -44,6 +50,15 @@ CLAIMED = {
  "C13": ("world+containers", "Coq proofs: index-table invariant in every reachable builder state (add/replace, clear, build with "
                   "re-sorting, clone, conversions), observers = contents, replaced values dropped once, clones independent; "
                   "differential check over 8 component layouts with has/get/component_types probes"),
+ "C14": ("serde", "Coq proofs over a token-tree model of both formats with a self-describing and a length-driven reader: announced "
+                  "lengths = elements written, serialize_satisfying emits exactly the matching entities, decode(encode(w)) "
+                  "succeeds and every handle (id and generation) denotes the handled part of what it denoted (round-trip "
+                  "theorems for every world satisfying the C01 invariant); differential check through serde_json, bincode and "
+                  "a strict token backend that verifies announced lengths"),
+ "C15": ("serde", "Coq proofs: for EVERY token tree both decoders return an error or a world satisfying the C01/C02 invariant and "
+                  "never panic (spawn_at total for any handle, spawn_column_batch_at for any duplicate-free handle list); "
+                  "differential check with structure-aware and token-level mutations of valid serialisations in debug and "
+                  "release builds + drop ledger for already-decoded components"),
  "C16": ("world", "Coq proofs: allocator theorems over all histories (c16_reserved_uniform, c16_must_flush) and world-level "
                   "refinement (a reserved handle denotes the empty entity; contains/entity/get/query_one/satisfies are "
                   "functions of that denotation; iteration and views see only entities with a row; flush and structural "
@@ -60,6 +75,10 @@ CLAIMED = {
                  "differential check vs the real Entity (to_bits, from_bits, Eq, Ord, Hash, serde)"),
 }
 ENGINES = [
+ {"name": "serde", "path": "coq/Model/Serde.v, harness/src/serde_engine.rs, harness/src/tok.rs", "serves_properties": ["C14", "C15"],
+  "kind_free_text": "token-tree model of the row and column formats with two reader disciplines; strict token serde backend, serde_json and bincode; mutation of token trees; contexts handling 3 component types"},
+ {"name": "world+layout", "path": "coq/Model/Layout.v, harness/src/alloc_track.rs, harness/src/world_engine.rs (layout_probe)", "serves_properties": ["C04"],
+  "kind_free_text": "capacity/addressing model with a capacity shadow in the script interpreter; tracking global allocator; column base/extent/alignment/overlap and reference address oracles"},
  {"name": "tracker", "path": "coq/Model/Tracker.v, harness/src/tracker_engine.rs", "serves_properties": ["C18"],
   "kind_free_text": "snapshot-difference model of ChangeTracker with consumption scripts; differential check + snapshot oracle"},
  {"name": "world+containers", "path": "coq/Model/Containers.v, harness/src/cont_engine.rs", "serves_properties": ["C03", "C11", "C12", "C13"],
